@@ -444,3 +444,34 @@ def shuffle_nodes(rng, cd):
     edges = [list(e) for e in cd["edges"]]
     rng.shuffle(edges)
     return {"name": cd["name"], "nodes": nodes, "edges": edges, "bbs": dict(cd["bbs"])}
+
+
+def retype_sibling(rng, obj):
+    """Deep copy of a case in which every embedded cdict keeps its nodes and edges but some gates get
+    another type of the same arity class (multi-input <-> multi-input, buf <-> not).  Consecutive
+    sibling cases expose results cached by structure (names/edges) instead of content."""
+    import copy
+
+    out = copy.deepcopy(obj)
+
+    def walk(x):
+        if isinstance(x, dict):
+            if "nodes" in x and "edges" in x and "bbs" in x:
+                tp = {n: t for n, t, _ in x["nodes"]}
+                pinned = {v for u, v in x["edges"] if tp.get(u) == "bb_output"}  # must stay buf
+                for nd in x["nodes"]:
+                    if nd[0] in pinned:
+                        continue
+                    if nd[1] in GATESN and rng.random() < 0.5:
+                        nd[1] = rng.choice([t for t in GATESN if t != nd[1]])
+                    elif nd[1] in GATES1 and rng.random() < 0.3:
+                        nd[1] = "buf" if nd[1] == "not" else "not"
+            else:
+                for v in x.values():
+                    walk(v)
+        elif isinstance(x, list):
+            for v in x:
+                walk(v)
+
+    walk(out)
+    return out
